@@ -1094,6 +1094,7 @@ static void summarize(struct hwloc_backend *backend, struct procinfo *infos, uns
   /* Look for Numa nodes inside packages (cannot be filtered-out) */
   if (fulldiscovery && (flags & HWLOC_X86_DISC_FLAG_TOPOEXT_NUMANODES)) {
     hwloc_bitmap_t node_cpuset;
+    hwloc_bitmap_t used_nodeids = hwloc_bitmap_alloc();
     hwloc_obj_t node;
 
     /* FIXME: if there's memory inside the root object, divide it into NUMA nodes? */
@@ -1120,6 +1121,12 @@ static void summarize(struct hwloc_backend *backend, struct procinfo *infos, uns
           hwloc_bitmap_clr(remaining_cpuset, j);
         }
       }
+      if (hwloc_bitmap_isset(used_nodeids, nodeid)) {
+	/* the same node id in another package: inconsistent CPUID information, don't create that node twice */
+	hwloc_bitmap_free(node_cpuset);
+	continue;
+      }
+      hwloc_bitmap_set(used_nodeids, nodeid);
       node = hwloc_alloc_setup_object(topology, HWLOC_OBJ_NUMANODE, nodeid);
       node->cpuset = node_cpuset;
       node->nodeset = hwloc_bitmap_alloc();
@@ -1129,6 +1136,7 @@ static void summarize(struct hwloc_backend *backend, struct procinfo *infos, uns
       hwloc__insert_object_by_cpuset(topology, NULL, node, "x86:numa");
       gotnuma++;
     }
+    hwloc_bitmap_free(used_nodeids);
   }
 
   if (hwloc_filter_check_keep_object_type(topology, HWLOC_OBJ_GROUP)) {
